@@ -151,14 +151,22 @@ class Formatter(FormatterInterface):
         # Return combined string
         return f"{lhs} {oper.op} {rhs}"
 
-    @__call__.register(L.Neg)
-    @__call__.register(L.Not)
-    def _(self, oper: L.Not | L.Neg) -> str:
-        """Format a unary operation."""
+    @__call__.register
+    def _(self, oper: L.Neg) -> str:
+        """Format a negation."""
         arg = self(oper.arg)
         if oper.arg.precedence >= oper.precedence:
             return f"{oper.op}({arg})"
         return f"{oper.op}{arg}"
+
+    @__call__.register
+    def _(self, oper: L.Not) -> str:
+        """Format a logical not.
+
+        Python's ``not`` binds weaker than comparisons and arithmetic, so the
+        whole expression is parenthesised.
+        """
+        return f"(not ({self(oper.arg)}))"
 
     @__call__.register(L.And)
     @__call__.register(L.Or)
